@@ -291,6 +291,7 @@ def run_shard(shard, tier):
     if shard[0] == "two-modules":
         _two_modules(acc)
         _shadow(acc)
+        _twins(acc)
         return acc
     _, lo, hi = shard
     for p in programs(tier)[lo:hi]:
@@ -479,3 +480,157 @@ def _two_script(sp, first_use):
     return "\n".join(["import sys", "sys.path.insert(0, '/verif')", "from utmc.props import c17", "acc = c17.Acc()",
                       "c17._two_modules(acc)", f"hits = [fp for fp in acc.violations if '|{sp}|{first_use}|' in fp]",
                       "for fp in hits: print(fp, acc.violations[fp][0].summary)", "sys.exit(1 if hits else 0)"]) + "\n"
+
+
+# ------------------------------------------------------------------------------------------------ twins
+# A program written with forward references, executed piecewise with probes between the pieces (so that classes and
+# functions are first used while some names are still undefined), against its twin written with direct references
+# (everything defined first).  The observations of the two must be equal, probe by probe.
+
+TWINS = {
+    # name: (forward parts [(source, [probe expr])], direct source)
+    "constrained-ref-str-subclass": (
+        [("class Holder(Schema):\n    x: 'Later' = Field(max_length=3)\n"
+          "    ys: List['Later'] = Field(default_factory=list, max_length=2)\n", []),
+         ("class Later(str):\n    pass\n",
+          ["Holder(x='abc')", "Holder(x='abcd')", "Holder(x='ab', ys=['a', 'b'])", "Holder(x='ab', ys=['a', 'b', 'c'])"])],
+        "class Later(str):\n    pass\n"
+        "class Holder(Schema):\n    x: Later = Field(max_length=3)\n    ys: List[Later] = Field(default_factory=list, max_length=2)\n"),
+    "constrained-ref-rule-subclass": (
+        [("class Holder(Schema):\n    c: 'Code' = Field(max_length=2)\n    n: 'Count' = Field(le=5, default=1)\n", []),
+         ("class Code(str, Rule):\n    regex = '[A-Z]+'\nclass Count(int, Rule):\n    ge = 0\n",
+          ["Holder(c='AB')", "Holder(c='ABC')", "Holder(c='ab')", "Holder(c='A', n=5)", "Holder(c='A', n=6)", "Holder(c='A', n=-1)"])],
+        "class Code(str, Rule):\n    regex = '[A-Z]+'\nclass Count(int, Rule):\n    ge = 0\n"
+        "class Holder(Schema):\n    c: Code = Field(max_length=2)\n    n: Count = Field(le=5, default=1)\n"),
+    "constrained-ref-function-param": (
+        [("@utype.parse\ndef f(x: 'Later' = Param(max_length=3, default='')):\n    return (type(x).__name__, str(x))\n", ["f()"]),
+         ("class Later(str):\n    pass\n", ["f('abc')", "f('abcd')", "f(x='ab')"])],
+        "class Later(str):\n    pass\n"
+        "@utype.parse\ndef f(x: Later = Param(max_length=3, default='')):\n    return (type(x).__name__, str(x))\n"),
+    "function-partial-first-call": (
+        [("@utype.parse\ndef f(l: 'Left' = None, r: 'Right' = None):\n"
+          "    return (type(l).__name__, type(r).__name__, getattr(l, 'v', None), getattr(r, 'v', None))\n", []),
+         ("class Left(Schema):\n    v: int\n", ["f(l={'v': '1'})", "f()"]),
+         ("class Right(Schema):\n    v: int\n", ["f(l={'v': 1}, r={'v': '2'})", "f(r={'v': 'x'})", "f(r={'v': 3})"])],
+        "class Left(Schema):\n    v: int\nclass Right(Schema):\n    v: int\n"
+        "@utype.parse\ndef f(l: Left = None, r: Right = None):\n"
+        "    return (type(l).__name__, type(r).__name__, getattr(l, 'v', None), getattr(r, 'v', None))\n"),
+    "function-varargs-refs": (
+        [("@utype.parse\ndef f(*args: 'A', **kwargs: 'B') -> 'R':\n"
+          "    return dict(n=len(args) + len(kwargs), names=[type(a).__name__ for a in args] + [type(b).__name__ for b in kwargs.values()])\n", []),
+         ("class A(Schema):\n    v: int\nclass B(Schema):\n    w: int\n", []),
+         ("class R(Schema):\n    n: int\n    names: List[str]\n", ["f({'v': '1'}, k={'w': 2})", "f({'v': 'x'})", "f(k={'v': 1})", "f()"])],
+        "class A(Schema):\n    v: int\nclass B(Schema):\n    w: int\nclass R(Schema):\n    n: int\n    names: List[str]\n"
+        "@utype.parse\ndef f(*args: A, **kwargs: B) -> R:\n"
+        "    return dict(n=len(args) + len(kwargs), names=[type(a).__name__ for a in args] + [type(b).__name__ for b in kwargs.values()])\n"),
+    "two-bases-same-pending-name": (
+        [("class B1(Schema):\n    xs: List['Tgt'] = Field(default_factory=list)\n"
+          "class B2(Schema):\n    m: Dict[str, 'Tgt'] = Field(default_factory=dict)\n"
+          "class S(B1, B2):\n    z: int = 0\n", []),
+         ("class Tgt(Schema):\n    v: int\n",
+          ["S(xs=[{'v': '1'}], m={'k': {'v': 2}})", "S(xs=[{'v': 'x'}])", "S(m={'k': {'w': 1}})", "B1(xs=[{'v': 3}])", "B2(m={'k': {'v': '4'}})"])],
+        "class Tgt(Schema):\n    v: int\n"
+        "class B1(Schema):\n    xs: List[Tgt] = Field(default_factory=list)\n"
+        "class B2(Schema):\n    m: Dict[str, Tgt] = Field(default_factory=dict)\n"
+        "class S(B1, B2):\n    z: int = 0\n"),
+    "generic-inside-logical": (
+        [("class H(Schema):\n    x: types.NegativeInt | List['Later'] = -1\n    y: one_of(List['Later'], int) = 0\n", []),
+         ("class Later(Schema):\n    v: int\n", ["H(x=[{'v': '1'}])", "H(x=-3)", "H(x=[{'v': 'x'}])", "H(y=[{'v': 2}])", "H(y='5')"])],
+        "class Later(Schema):\n    v: int\n"
+        "class H(Schema):\n    x: types.NegativeInt | List[Later] = -1\n    y: one_of(List[Later], int) = 0\n"),
+    "decorated-dataclass-ref": (
+        [("@utype.dataclass\nclass D:\n    v: int\n    nxt: Optional['E'] = None\n    tags: List['Tag'] = Field(default_factory=list, max_length=2)\n", []),
+         ("@utype.dataclass\nclass E:\n    w: int\n    back: Optional[D] = None\nclass Tag(str):\n    pass\n",
+          ["D(v='1', nxt={'w': '2', 'back': {'v': 3}})", "D(v=1, tags=['a', 'b'])", "D(v=1, tags=['a', 'b', 'c'])", "D(v=1, nxt={'w': 'x'})"])],
+        "class Tag(str):\n    pass\n"
+        "@utype.dataclass\nclass D:\n    v: int\n    nxt: Optional['E'] = None\n    tags: List[Tag] = Field(default_factory=list, max_length=2)\n"
+        "@utype.dataclass\nclass E:\n    w: int\n    back: Optional[D] = None\n"),
+    "subclass-adds-ref-to-pending-base": (
+        [("class Base(Schema):\n    a: Optional['X'] = None\n"
+          "class Sub(Base):\n    b: List['Y'] = Field(default_factory=list)\n", []),
+         ("class X(Schema):\n    v: int\n", []),
+         ("class Y(Schema):\n    w: int\n", ["Sub(a={'v': '1'}, b=[{'w': '2'}])", "Base(a={'v': 2})", "Sub(b=[{'w': 'x'}])", "Sub(a={'w': 1})"])],
+        "class X(Schema):\n    v: int\nclass Y(Schema):\n    w: int\n"
+        "class Base(Schema):\n    a: Optional[X] = None\n"
+        "class Sub(Base):\n    b: List[Y] = Field(default_factory=list)\n"),
+}
+
+
+def plain(v, depth=0):
+    """an observation: nested structure with class names (module-independent)"""
+    if depth > 8:
+        return "<deep>"
+    cls = type(v)
+    if hasattr(cls, "__parser__"):
+        data = dict(dict.items(v)) if isinstance(v, dict) else {k: x for k, x in v.__dict__.items() if not k.startswith("__")}
+        return ("inst", cls.__name__, sorted((str(k), repr(plain(x, depth + 1))) for k, x in data.items()))
+    if isinstance(v, dict):
+        return ("dict", sorted((repr(k), repr(plain(x, depth + 1))) for k, x in v.items()))
+    if isinstance(v, (list, tuple)):
+        return (cls.__name__, [plain(x, depth + 1) for x in v])
+    return (cls.__name__, repr(v))
+
+
+def _probe(mod, expr):
+    st, r = call_guarded(lambda: eval(expr, mod.__dict__), wall_s=2.0)
+    if st == "ok":
+        return ("ok", plain(r))
+    if st == "exc" and isinstance(r, uexc.ParseError):
+        return ("rejected", "ParseError")
+    return ("other", f"{type(r).__name__ if st == 'exc' else st}: {short(r, 100)}")
+
+
+def _fresh_module(tag):
+    import typing
+    for f in typing._cleanups:
+        f()
+    _SEQ[0] += 1
+    m = types.ModuleType(f"utmc_c17_{tag}_{_SEQ[0]}")
+    sys.modules[m.__name__] = m
+    exec("from utmc.ns import *", m.__dict__)
+    return m
+
+
+def run_twin(name, local=False):
+    """-> (observations of the forward program, observations of the direct twin), each [(probe, outcome)]"""
+    parts, direct = TWINS[name]
+    fm = _fresh_module("twin_f")
+    fobs = []
+    try:
+        for src, probes in parts:
+            exec(compile(src, f"<{fm.__name__}>", "exec"), fm.__dict__)
+            for pr in probes:
+                fobs.append((pr, _probe(fm, pr)))
+    except Exception as e:
+        fobs.append(("<declaration>", ("other", f"{type(e).__name__}: {short(e, 120)}")))
+    cleanup(fm)
+    dm = _fresh_module("twin_d")
+    exec(compile(direct, f"<{dm.__name__}>", "exec"), dm.__dict__)
+    dobs = [(pr, _probe(dm, pr)) for _, probes in parts for pr in probes]
+    cleanup(dm)
+    return fobs, dobs
+
+
+def _twins(acc):
+    for name in TWINS:
+        fobs, dobs = run_twin(name)
+        script = "\n".join(["import sys", "sys.path.insert(0, '/verif')", "from utmc.props import c17",
+                            f"f, d = c17.run_twin({name!r})", "bad = False",
+                            "for (p, a), (_, b) in zip(f, d):", "    print(p, '\\n   forward:', a, '\\n   direct: ', b); bad = bad or a != b",
+                            "sys.exit(1 if bad or len(f) != len(d) else 0)"]) + "\n"
+        if len(fobs) != len(dobs):
+            acc.states += 1
+            acc.violation(f"C17|twin|{name}|declaration", f"twin {name}: the forward-reference program stops at {fobs[-1]}", script)
+            continue
+        for (pr, a), (_, b) in zip(fobs, dobs):
+            acc.states += 1
+            acc.transitions += 2
+            acc.evaluations += 1
+            acc.nontrivial_add((name, pr))
+            acc.outcomes[a[0]] += 1
+            if b[0] == "other":
+                raise RuntimeError(f"harness error: the direct twin of {name} fails on {pr}: {b}")
+            if a != b:
+                acc.violation(f"C17|twin|{name}|{a[0]}-vs-{b[0]}", f"twin {name}: {pr} gives {short(a, 160)} with forward references but "
+                              f"{short(b, 160)} when the same program is written with direct references", script)
+        acc.sample(dict(scenario="twin:" + name, probes=len(fobs), outcomes=[a[0] for _, a in fobs]))
